@@ -147,8 +147,24 @@ func runC12(c *Ctx) {
 			"# Title {.intro tabindex=2}", "# T {#i data-n=1.5 data-b=true}", "t {lang=en hidden=true}\n===", "## T {title=x data-z=-3e2 .c}", "# T {data-a=b data-c=7 data-d=e data-f=false}", "# T {tabindex=2 .intro}", "# T {.a .b data-n=12345678901234567890}",
 			"```go {.c data-n=1}\nx\n```", "> # q {#a data-k=0.5}"} {
 			add("targeted", []byte(t))
+			// the same document in capitals: labels, names and tags that some component folds or
+			// normalises must be folded into a copy, never in place
+			if u := bytes.ToUpper([]byte(t)); !bytes.Equal(u, []byte(t)) {
+				add("targeted", u)
+			}
+		}
+		for _, t := range []string{"[^Note]\n\n[^Note]: n", "[^NOTE]: n\n\n[^note] [^Note]", "[^\u00c0B]: n\n\n[^\u00e0b]", "[Foo]: /u\n\n[FOO] [foo]", "[\u00c0B  C]: /u\n\n[\u00e0b c]", "<DIV>\nx\n</DIV>", "<HTTP://EXAMPLE.COM>", "WWW.EXAMPLE.COM HTTP://A.B FOO@BAR.COM",
+			"Term\n: Def", "- [X] done", "|A|B|\n|:-|-:|\n|C|D|", "# H {#ID .CLASS DATA-N=X}", "```GO\nX\n```", "&AMP; &Amp; &#X41;", "[a](/U%C3%A4 \"T\")"} {
+			add("targeted", []byte(t))
 		}
 	})
+	for _, it := range append([]docItem{}, items...) {
+		if it.stream == "corpus" || it.stream == "context-x-content" {
+			if u := bytes.ToUpper(it.doc); !bytes.Equal(u, it.doc) {
+				items = append(items, docItem{it.stream, u})
+			}
+		}
+	}
 	nw := 16
 	maps := make([]*roMap, nw)
 	built := make([][]mdT, nw)
